@@ -177,18 +177,13 @@ def rule_e(repo, chk):
         chk.ob('C19.e', p is None, fy[0].ast, 'no file of a folder is yielded before that folder\'s .gitignore was read',
                'path: %s' % c.describe(p) if p else '')
         for y in fy:
-            tests = []
-            def acc(e, pol):
-                return False
-            from ..lib import dominating_facts
-            facts = dominating_facts(f, y.ast)
-            txt = [norm(e) for e, pol in facts if pol]
-            ok_abs = any(t == 'str(path) not in except_paths' for t in txt)
-            ok_rel = any(t == 'str(path) not in except_paths_relative_expanded' for t in txt)
-            chk.ob('C19.e', ok_abs, y.ast, 'a python file is yielded only if its string path is not an absolute ignore entry', str(txt))
-            chk.ob('C19.e', ok_rel, y.ast, 'a python file is yielded only if its string path is not an expanded relative ignore entry', str(txt))
-            ok_sfx = any("path.suffix in ('.py', '.pyi')" == t for t in txt)
-            chk.ob('C19.e', ok_sfx, y.ast, 'both .py and .pyi files are searched')
+            # GATE (either spelling, also through a flag variable): the yield is reached only with these three facts
+            def fact(text):
+                return gate(f, y.ast, lambda e, pol, text=text: pol and norm(e) == text)
+            w1, w2, w3 = fact('str(path) not in except_paths'), fact('str(path) not in except_paths_relative_expanded'), fact("path.suffix in ('.py', '.pyi')")
+            chk.ob('C19.e', w1 is None, y.ast, 'a python file is yielded only if its string path is not an absolute ignore entry', w1 or '')
+            chk.ob('C19.e', w2 is None, y.ast, 'a python file is yielded only if its string path is not an expanded relative ignore entry', w2 or '')
+            chk.ob('C19.e', w3 is None, y.ast, 'both .py and .pyi files are searched', w3 or '')
     g = repo.find(REFS, 'gitignored_paths')
     cg = cfg_of(g)
     strip = [n for n in cg.nodes if isinstance(n.ast, ast.Assign) and 'rstrip(\'/\')' in norm(n.ast.value)]
